@@ -1,7 +1,606 @@
-//! Controlled scheduler (E2). Filled in below.
+//! E2 — controlled scheduler: a CHESS-style stateless explorer over real OS threads running the
+//! real code. Exactly one controlled thread runs at a time; at every guarded hook the running
+//! thread publishes its pending operation, the next thread is chosen (by replaying a recorded
+//! prefix of choices, then "stay with the running thread"), and the chosen thread continues.
+//! Blocking operations are modelled (lock owner table, channel counters, thread exits, tick
+//! budgets), so a disabled thread is never granted the token.
 use flexi_logger::verif_hooks::Op;
+use std::collections::HashMap;
+use std::sync::{Arc, Condvar, Mutex, MutexGuard};
+use std::thread::ThreadId;
+use std::time::{Duration, Instant};
 
-pub struct Sched;
+pub struct EndOfExecution;
+
+#[derive(Clone, Debug, PartialEq, Eq)]
+enum TState {
+    Running,
+    Parked,
+    Finished,
+}
+
+#[derive(Debug)]
+struct T {
+    os: ThreadId,
+    kind: String,
+    harness: bool,
+    state: TState,
+    pending: Option<Op>,
+}
+
+#[derive(Clone, Debug)]
+pub struct ChoicePoint {
+    /// enabled thread ids in canonical order: the running thread first if still enabled
+    pub enabled: Vec<usize>,
+    pub chosen: usize,
+    /// the thread that was running when the choice was made is still enabled (switching away
+    /// from it costs a preemption)
+    pub running_enabled: bool,
+    pub ops: Vec<String>,
+}
+
+#[derive(Clone, Debug, PartialEq, Eq)]
+pub enum Abort {
+    Deadlock(String),
+    Diverged(String),
+}
+
+struct Inner {
+    threads: Vec<T>,
+    running: Option<usize>,
+    locks: HashMap<(&'static str, usize), usize>,
+    chans: HashMap<(&'static str, usize), i64>,
+    tick_budget: HashMap<&'static str, usize>,
+    default_tick_budget: usize,
+    registered: HashMap<String, usize>,
+    claimed: HashMap<String, usize>,
+    prefix: Vec<usize>,
+    points: Vec<ChoicePoint>,
+    abort: Option<Abort>,
+    ending: bool,
+    ignore: Vec<&'static str>,
+    only_points: Option<Vec<&'static str>>,
+    log: Vec<String>,
+    keep_log: bool,
+}
+
+pub struct Sched {
+    inner: Mutex<Inner>,
+    cv: Condvar,
+}
+
+thread_local! {
+    static GUARD: std::cell::RefCell<Option<Guard>> = const { std::cell::RefCell::new(None) };
+}
+struct Guard {
+    sched: Arc<Sched>,
+    tid: usize,
+}
+impl Drop for Guard {
+    fn drop(&mut self) {
+        self.sched.finished(self.tid);
+    }
+}
+
+fn kind_of_thread_name(name: &str) -> Option<&'static str> {
+    Some(match name {
+        "flexi_logger-async_file_writer" => "flw_async_writer",
+        "flexi_logger-fs-cleanup" => "flw_cleanup",
+        "flexi_logger-file_flusher" => "flw_flusher",
+        "flexi_logger-fs-async_flusher" => "flw_async_flusher",
+        "flexi_logger-flusher" => "flusher",
+        "flexi_logger-async_std_writer" => "std_async_writer",
+        _ => return None,
+    })
+}
+
+#[derive(Clone, Debug, Default)]
+pub struct SchedCfg {
+    pub prefix: Vec<usize>,
+    /// names of `Point`s that are not scheduling points
+    pub ignore: Vec<&'static str>,
+    /// if set, only these `Point` names are scheduling points (fs sites included)
+    pub only_points: Option<Vec<&'static str>>,
+    pub tick_budget: usize,
+    pub keep_log: bool,
+}
+
 impl Sched {
-    pub fn sync_op(&self, _op: Op) {}
+    pub fn new(cfg: SchedCfg) -> Arc<Self> {
+        Arc::new(Self {
+            inner: Mutex::new(Inner {
+                threads: Vec::new(),
+                running: None,
+                locks: HashMap::new(),
+                chans: HashMap::new(),
+                tick_budget: HashMap::new(),
+                default_tick_budget: cfg.tick_budget,
+                registered: HashMap::new(),
+                claimed: HashMap::new(),
+                prefix: cfg.prefix,
+                points: Vec::new(),
+                abort: None,
+                ending: false,
+                ignore: cfg.ignore,
+                only_points: cfg.only_points,
+                log: Vec::new(),
+                keep_log: cfg.keep_log,
+            }),
+            cv: Condvar::new(),
+        })
+    }
+
+    fn lock(&self) -> MutexGuard<'_, Inner> {
+        self.inner.lock().unwrap_or_else(|e| e.into_inner())
+    }
+
+    fn my_tid(g: &Inner) -> Option<usize> {
+        let me = std::thread::current().id();
+        g.threads.iter().position(|t| t.os == me && t.state != TState::Finished)
+    }
+
+    fn enabled(g: &Inner, tid: usize) -> bool {
+        let t = &g.threads[tid];
+        if t.state != TState::Parked {
+            return false;
+        }
+        match t.pending.as_ref() {
+            None => true,
+            Some(Op::Acquire(k, id)) => !g.locks.contains_key(&(*k, *id)),
+            Some(Op::Recv(k, id)) => g.chans.get(&(*k, *id)).copied().unwrap_or(0) > 0,
+            Some(Op::Join(os)) => g
+                .threads
+                .iter()
+                .filter(|x| x.os == *os)
+                .all(|x| x.state == TState::Finished),
+            Some(Op::Tick(k)) => g.tick_budget.get(k).copied().unwrap_or(g.default_tick_budget) > 0,
+            Some(_) => true,
+        }
+    }
+
+    fn apply_grant(g: &mut Inner, tid: usize) {
+        let op = g.threads[tid].pending.take();
+        match op {
+            Some(Op::Acquire(k, id)) => {
+                g.locks.insert((k, id), tid);
+            }
+            Some(Op::Recv(k, id)) => {
+                *g.chans.entry((k, id)).or_insert(0) -= 1;
+            }
+            Some(Op::Send(k, id)) => {
+                *g.chans.entry((k, id)).or_insert(0) += 1;
+            }
+            Some(Op::Tick(k)) => {
+                let d = g.default_tick_budget;
+                let e = g.tick_budget.entry(k).or_insert(d);
+                *e = e.saturating_sub(1);
+            }
+            _ => {}
+        }
+        g.threads[tid].state = TState::Running;
+        g.running = Some(tid);
+    }
+
+    /// Chooses the next thread to run. `from` is the thread that made the step (now parked or
+    /// finished).
+    fn choose(&self, g: &mut Inner, from: usize) {
+        if g.ending || g.abort.is_some() {
+            return;
+        }
+        let mut en: Vec<usize> = (0..g.threads.len()).filter(|t| Self::enabled(g, *t)).collect();
+        let running_enabled = en.contains(&from);
+        if running_enabled {
+            en.retain(|t| *t != from);
+            en.insert(0, from);
+        }
+        if en.is_empty() {
+            let alive_harness = g
+                .threads
+                .iter()
+                .any(|t| t.harness && t.state != TState::Finished);
+            g.running = None;
+            if alive_harness {
+                let desc = g
+                    .threads
+                    .iter()
+                    .enumerate()
+                    .filter(|(_, t)| t.state != TState::Finished)
+                    .map(|(i, t)| format!("T{i}({}) waits at {:?}", t.kind, t.pending))
+                    .collect::<Vec<_>>()
+                    .join("; ");
+                g.abort = Some(Abort::Deadlock(desc));
+                g.ending = true;
+            }
+            return;
+        }
+        let idx = g.points.len();
+        let choice = if idx < g.prefix.len() { g.prefix[idx] } else { 0 };
+        if choice >= en.len() {
+            g.abort = Some(Abort::Diverged(format!(
+                "choice {choice} at point {idx} but only {} enabled",
+                en.len()
+            )));
+            g.ending = true;
+            return;
+        }
+        let tid = en[choice];
+        let ops = en
+            .iter()
+            .map(|t| format!("T{t}:{:?}", g.threads[*t].pending))
+            .collect();
+        g.points.push(ChoicePoint {
+            enabled: en,
+            chosen: choice,
+            running_enabled,
+            ops,
+        });
+        if g.keep_log {
+            let l = format!("grant T{tid} {:?}", g.threads[tid].pending);
+            g.log.push(l);
+        }
+        Self::apply_grant(g, tid);
+    }
+
+    /// Parks the calling (registered) thread until it is granted the token.
+    fn wait_for_grant(&self, mut g: MutexGuard<'_, Inner>, tid: usize) {
+        loop {
+            if g.ending {
+                drop(g);
+                std::panic::resume_unwind(Box::new(EndOfExecution));
+            }
+            if g.running == Some(tid) && g.threads[tid].state == TState::Running {
+                return;
+            }
+            g = self.cv.wait(g).unwrap_or_else(|e| e.into_inner());
+        }
+    }
+
+    fn register(self: &Arc<Self>, g: &mut Inner, kind: &str, harness: bool, pending: Option<Op>) -> usize {
+        let tid = g.threads.len();
+        g.threads.push(T {
+            os: std::thread::current().id(),
+            kind: kind.to_string(),
+            harness,
+            state: TState::Parked,
+            pending,
+        });
+        *g.registered.entry(kind.to_string()).or_insert(0) += 1;
+        GUARD.with(|c| {
+            *c.borrow_mut() = Some(Guard {
+                sched: Arc::clone(self),
+                tid,
+            });
+        });
+        tid
+    }
+
+    fn is_sched_point(g: &Inner, op: &Op) -> bool {
+        match op {
+            Op::Point(name) => {
+                if let Some(only) = &g.only_points {
+                    only.contains(name)
+                } else {
+                    !g.ignore.contains(name)
+                }
+            }
+            _ => true,
+        }
+    }
+
+    /// Entry from the hooks.
+    pub fn sync_op(self: &Arc<Self>, op: Op) {
+        let mut g = self.lock();
+        if g.ending {
+            // end of execution: controlled threads unwind at their next hook
+            if Self::my_tid(&g).is_some() {
+                drop(g);
+                std::panic::resume_unwind(Box::new(EndOfExecution));
+            }
+            return;
+        }
+        let me = Self::my_tid(&g);
+        match (&op, me) {
+            (Op::Release(k, id), Some(tid)) => {
+                if g.locks.get(&(*k, *id)) == Some(&tid) {
+                    g.locks.remove(&(*k, *id));
+                }
+            }
+            (Op::Release(..), None) => {}
+            (Op::Spawned(kind), _) => {
+                // wait (holding the token) until the child has registered and parked
+                let kind = (*kind).to_string();
+                let c = {
+                    let e = g.claimed.entry(kind.clone()).or_insert(0);
+                    *e += 1;
+                    *e
+                };
+                let t0 = Instant::now();
+                while g.registered.get(&kind).copied().unwrap_or(0) < c {
+                    let (ng, _) = self
+                        .cv
+                        .wait_timeout(g, Duration::from_millis(200))
+                        .unwrap_or_else(|e| e.into_inner());
+                    g = ng;
+                    if t0.elapsed() > Duration::from_secs(10) {
+                        g.abort = Some(Abort::Diverged(format!("spawned thread of kind {kind} never registered")));
+                        break;
+                    }
+                }
+            }
+            (_, Some(tid)) => {
+                if !Self::is_sched_point(&g, &op) {
+                    return;
+                }
+                g.threads[tid].pending = Some(op);
+                g.threads[tid].state = TState::Parked;
+                self.choose(&mut g, tid);
+                self.cv.notify_all();
+                self.wait_for_grant(g, tid);
+            }
+            (_, None) => {
+                // a thread flexi_logger spawned itself registers at its first hook
+                let name = std::thread::current().name().unwrap_or("").to_string();
+                if let Some(kind) = kind_of_thread_name(&name) {
+                    let tid = self.register(&mut g, kind, false, Some(op));
+                    self.cv.notify_all();
+                    self.wait_for_grant(g, tid);
+                }
+                // any other thread is not under control
+            }
+        }
+    }
+
+    fn finished(&self, tid: usize) {
+        let mut g = self.lock();
+        if tid >= g.threads.len() || g.threads[tid].state == TState::Finished {
+            return;
+        }
+        let was_running = g.running == Some(tid);
+        g.threads[tid].state = TState::Finished;
+        g.threads[tid].pending = None;
+        g.locks.retain(|_, owner| *owner != tid);
+        if was_running {
+            g.running = None;
+            self.choose(&mut g, tid);
+        }
+        self.cv.notify_all();
+    }
+
+    // ------------------------------------------------------------------ harness API
+
+    /// Registers the calling thread as the driver (thread 0) and gives it the token.
+    pub fn start_driver(self: &Arc<Self>) {
+        let mut g = self.lock();
+        let tid = self.register(&mut g, "driver", true, None);
+        g.threads[tid].state = TState::Running;
+        g.running = Some(tid);
+    }
+
+    /// Spawns a controlled harness thread; returns when the child is parked at its start point.
+    pub fn spawn(self: &Arc<Self>, name: &str, f: impl FnOnce() + Send + 'static) -> std::thread::JoinHandle<()> {
+        let s = Arc::clone(self);
+        let kind = format!("h:{name}");
+        let before = self.lock().registered.get(&kind).copied().unwrap_or(0);
+        let k2 = kind.clone();
+        let h = std::thread::Builder::new()
+            .name(format!("fxv-{name}"))
+            .spawn(move || {
+                let tid = {
+                    let mut g = s.lock();
+                    let tid = s.register(&mut g, &k2, true, Some(Op::Point("start")));
+                    s.cv.notify_all();
+                    tid
+                };
+                let r = std::panic::catch_unwind(std::panic::AssertUnwindSafe(|| {
+                    let g = s.lock();
+                    s.wait_for_grant(g, tid);
+                    f();
+                }));
+                if let Err(p) = r {
+                    if !p.is::<EndOfExecution>() {
+                        let msg = crate::LAST_PANIC
+                            .with(|x| x.borrow_mut().take())
+                            .unwrap_or_else(|| "<panic>".into());
+                        let mut g = s.lock();
+                        g.log.push(format!("PANIC in T{tid}: {msg}"));
+                        if g.abort.is_none() {
+                            g.abort = Some(Abort::Deadlock(format!("harness thread T{tid} panicked: {msg}")));
+                        }
+                    }
+                }
+                // Guard drop marks the thread finished
+            })
+            .expect("spawn harness thread");
+        let mut g = self.lock();
+        while g.registered.get(&kind).copied().unwrap_or(0) <= before {
+            g = self.cv.wait(g).unwrap_or_else(|e| e.into_inner());
+        }
+        h
+    }
+
+    /// Joins a controlled harness thread (a blocking, modelled operation).
+    pub fn join(self: &Arc<Self>, h: std::thread::JoinHandle<()>) {
+        self.sync_op(Op::Join(h.thread().id()));
+        h.join().ok();
+    }
+
+    /// Ends the execution: every parked thread unwinds. Returns the recorded choice points.
+    pub fn end(self: &Arc<Self>) -> (Vec<ChoicePoint>, Option<Abort>, Vec<String>) {
+        let mut g = self.lock();
+        g.ending = true;
+        self.cv.notify_all();
+        // wait (bounded) until all other threads are gone
+        let t0 = Instant::now();
+        let me = std::thread::current().id();
+        loop {
+            let alive = g
+                .threads
+                .iter()
+                .filter(|t| t.state != TState::Finished && t.os != me)
+                .count();
+            if alive == 0 || t0.elapsed() > Duration::from_secs(2) {
+                break;
+            }
+            let (ng, _) = self
+                .cv
+                .wait_timeout(g, Duration::from_millis(20))
+                .unwrap_or_else(|e| e.into_inner());
+            g = ng;
+        }
+        (g.points.clone(), g.abort.clone(), g.log.clone())
+    }
+
+    pub fn aborted(&self) -> Option<Abort> {
+        self.lock().abort.clone()
+    }
+}
+
+// ---------------------------------------------------------------------- explorer
+
+#[derive(Debug, Default, Clone)]
+pub struct ExploreStats {
+    pub schedules: u64,
+    pub choice_points: u64,
+    pub max_points: usize,
+    pub max_enabled: usize,
+    pub bound: usize,
+    pub capped: bool,
+}
+
+pub struct Execution<O> {
+    pub obs: Option<O>,
+    pub points: Vec<ChoicePoint>,
+    pub abort: Option<Abort>,
+    pub log: Vec<String>,
+    pub stalled: bool,
+}
+
+/// Runs `body` once under the scheduler with the given choice prefix. `body` runs as the driver
+/// thread (thread 0) and uses the `Arc<Sched>` to spawn and join controlled threads.
+pub fn run_once<O: Send + 'static>(
+    cfg: &SchedCfg,
+    prefix: &[usize],
+    clock: Option<Arc<crate::hooks::VClock>>,
+    body: Arc<dyn Fn(&Arc<Sched>) -> O + Send + Sync>,
+) -> Execution<O> {
+    let mut c = cfg.clone();
+    c.prefix = prefix.to_vec();
+    let sched = Sched::new(c);
+    let ctx = crate::hooks::Ctx::with_sched(clock, Arc::clone(&sched));
+    crate::hooks::set_ctx(Some(ctx));
+    let (tx, rx) = std::sync::mpsc::channel();
+    let s2 = Arc::clone(&sched);
+    let h = std::thread::Builder::new()
+        .name("fxv-driver".into())
+        .stack_size(4 << 20)
+        .spawn(move || {
+            s2.start_driver();
+            let r = std::panic::catch_unwind(std::panic::AssertUnwindSafe(|| body(&s2)));
+            let r = match r {
+                Ok(o) => Ok(o),
+                Err(p) => {
+                    if p.is::<EndOfExecution>() {
+                        Err(None)
+                    } else {
+                        Err(Some(
+                            crate::LAST_PANIC
+                                .with(|x| x.borrow_mut().take())
+                                .unwrap_or_else(|| "<panic>".into()),
+                        ))
+                    }
+                }
+            };
+            tx.send(r).ok();
+        })
+        .expect("spawn driver");
+    let res = rx.recv_timeout(Duration::from_secs(20));
+    let stalled = res.is_err();
+    let (points, mut abort, mut log) = sched.end();
+    if !stalled {
+        h.join().ok();
+    }
+    crate::hooks::set_ctx(None);
+    let obs = match res {
+        Ok(Ok(o)) => Some(o),
+        Ok(Err(Some(msg))) => {
+            log.push(format!("driver panicked: {msg}"));
+            if abort.is_none() {
+                abort = Some(Abort::Deadlock(format!("driver thread panicked: {msg}")));
+            }
+            None
+        }
+        _ => None,
+    };
+    Execution {
+        obs,
+        points,
+        abort,
+        log,
+        stalled,
+    }
+}
+
+/// Depth-first exploration of all schedules with at most `bound` preemptions
+/// (`None` = unbounded), calling `on_exec` for every complete execution.
+pub fn explore<O: Send + 'static>(
+    cfg: &SchedCfg,
+    bound: Option<usize>,
+    max_schedules: u64,
+    clock: &dyn Fn() -> Option<Arc<crate::hooks::VClock>>,
+    body: Arc<dyn Fn(&Arc<Sched>) -> O + Send + Sync>,
+    on_exec: &mut dyn FnMut(&[usize], &Execution<O>) -> bool,
+) -> ExploreStats {
+    let mut stats = ExploreStats {
+        bound: bound.unwrap_or(usize::MAX),
+        ..ExploreStats::default()
+    };
+    let mut stack: Vec<Vec<usize>> = vec![vec![]];
+    while let Some(prefix) = stack.pop() {
+        if stats.schedules >= max_schedules {
+            stats.capped = true;
+            break;
+        }
+        let ex = run_once(cfg, &prefix, clock(), Arc::clone(&body));
+        stats.schedules += 1;
+        stats.choice_points += ex.points.len() as u64;
+        stats.max_points = stats.max_points.max(ex.points.len());
+        let choices: Vec<usize> = ex.points.iter().map(|p| p.chosen).collect();
+        let go_on = on_exec(&choices, &ex);
+        if !go_on {
+            break;
+        }
+        if ex.stalled {
+            break;
+        }
+        // children: deviate at every point after the prefix
+        let mut pre = 0usize;
+        let mut pre_before: Vec<usize> = Vec::with_capacity(ex.points.len());
+        for p in &ex.points {
+            pre_before.push(pre);
+            if p.running_enabled && p.chosen != 0 {
+                pre += 1;
+            }
+        }
+        let mut kids = Vec::new();
+        for i in prefix.len()..ex.points.len() {
+            let p = &ex.points[i];
+            stats.max_enabled = stats.max_enabled.max(p.enabled.len());
+            for alt in 1..p.enabled.len() {
+                let cost = pre_before[i] + usize::from(p.running_enabled);
+                if let Some(b) = bound {
+                    if cost > b {
+                        continue;
+                    }
+                }
+                let mut k = choices[..i].to_vec();
+                k.push(alt);
+                kids.push(k);
+            }
+        }
+        // DFS order: explore earlier deviations last (stack) — order does not matter for coverage
+        for k in kids.into_iter().rev() {
+            stack.push(k);
+        }
+    }
+    stats
 }
